@@ -220,7 +220,10 @@ func c08Scenarios(tier string) []*Scenario {
 		add(prepare(&c08Case{name: "retry(limiter-wait)", stack: []Spec{retry, {Kind: KLimiter, Smooth: true, Interval: 100, LWait: 1000, Used: 1}}, script: failing, source: src, at: 30}))
 		// hedge: cancellation during the first hedge delay / with all attempts running
 		hs := []Out{coop(200, E1, 0), coop(200, E1, 0), coop(200, E1, 0)}
-		for _, at := range []time.Duration{10, 40, 100} {
+		for _, at := range []time.Duration{0, 10, 40, 100} { // (0: before the first attempt has started)
+			if src == "deadline" && at == 0 {
+				continue
+			}
 			add(prepare(&c08Case{name: "hedge", stack: []Spec{hedge}, script: hs, source: src, at: at}))
 		}
 		add(prepare(&c08Case{name: "fallback(hedge)", stack: []Spec{fb, hedge}, script: hs, source: src, at: 10}))
